@@ -174,21 +174,26 @@ func c11(args []string) error {
 				emit(0, "reformat phylip -o file"+ext, names, seqs, nil, 0, dyadic{1, 1}, false, []string{a1.stdout, readHex(o1f)}, []string{a2.stdout, readHex(o2f)}, a1.rc, a2.rc,
 					map[string]interface{}{"op": "twice:reformat -o " + ext, "names": names, "seqs": seqs, "rc": a1.rc})
 				stats["twice:reformat -o "+ext]++
-			} else if kind == 13 && r.Intn(2) == 0 {
+			} else if kind == 13 {
 				// sample rarefy with a seed: counts with ties (the draw must not depend on the order of a Go map)
+				// (its own input: eight sequences, most counts equal, so that an order taken from a map shows)
 				cf := filepath.Join(dir, "counts.txt")
-				var cb strings.Builder
-				for k := range names {
-					fmt.Fprintf(&cb, "%s\t%d\n", names[k], []int{5, 5, 5, 3}[r.Intn(4)])
+				rin := filepath.Join(dir, "rarefy.fa")
+				var cb, rf strings.Builder
+				for k := 0; k < 8; k++ {
+					fmt.Fprintf(&cb, "q%d\t%d\n", k, []int{5, 5, 5, 3}[r.Intn(4)])
+					fmt.Fprintf(&rf, ">q%d\n%s\n", k, randSeq(r, 6, func(r *rand.Rand) byte { return "ACGT"[r.Intn(4)] }))
 				}
 				os.WriteFile(cf, []byte(cb.String()), 0644)
-				nb := 1 + r.Intn(3*len(names)-1)
+				os.WriteFile(rin, []byte(rf.String()), 0644)
+				in := rin
+				nb := 2 + r.Intn(6)
 				a1 := runCLI(bin, dir, "sample", "rarefy", "-i", in, "-c", cf, "-n", fmt.Sprint(nb), "--seed", fmt.Sprint(seed))
 				outs1, outs2 := []string{a1.stdout}, []string{}
 				rc2 := a1.rc
-				for q := 0; q < 4; q++ { // several executions: the order of a map changes from run to run
+				for q := 0; q < 6; q++ { // several executions: the order of a map changes from run to run
 					a2 := runCLI(bin, dir, "sample", "rarefy", "-i", in, "-c", cf, "-n", fmt.Sprint(nb), "--seed", fmt.Sprint(seed))
-					if a2.stdout != a1.stdout || a2.rc != a1.rc || q == 3 {
+					if a2.stdout != a1.stdout || a2.rc != a1.rc || q == 5 {
 						outs2, rc2 = []string{a2.stdout}, a2.rc
 						break
 					}
